@@ -146,8 +146,24 @@ type vfIdent struct {
 
 var vfBase = time.Date(2031, 3, 1, 12, 0, 0, 0, time.UTC)
 
+// vfFlavour selects how the model's three command texts are made concrete ("A" is a proper prefix of "AB" in
+// every flavour): short texts, and texts at the size a stored grant can carry (255 bytes on the wire) with the
+// longer request continuing beyond it.
+var vfFlavour int
+
 func vfCmdText(c string) string {
-	// "A" is a proper prefix of "AB"
+	pad := func(s string, n int) string { return s + strings.Repeat("x", n-len(s)) }
+	switch vfFlavour % 4 {
+	case 1:
+		a := pad("make deploy TARGET=", 255)
+		return map[string]string{"A": a, "AB": a + "; cat /etc/shadow", "B": pad("make clean TARGET=", 255)}[c]
+	case 2:
+		a := pad("make deploy TARGET=", 254)
+		return map[string]string{"A": a, "AB": a + "y", "B": pad("make clean TARGET=", 254)}[c]
+	case 3:
+		a := pad("make deploy TARGET=", 255)
+		return map[string]string{"A": a, "AB": a + strings.Repeat("z", 300), "B": "b"}[c]
+	}
 	return map[string]string{"A": "make deploy", "AB": "make deploy-all", "B": "make clean"}[c]
 }
 
@@ -157,6 +173,7 @@ type vfSession struct {
 	smux *tubes.Muxer
 	user string
 	ok   bool
+	pf   *tubes.Reliable // a port-forwarding control tube opened right after admission, used by the first request
 }
 
 func vfReadTimeout(t *tubes.Reliable, n int, d time.Duration) ([]byte, error) {
@@ -280,6 +297,7 @@ func TestVerifGrantsReplay(t *testing.T) {
 		clock.Unlock()
 		ks := authkeys.NewSyncAuthKeySet()
 		variant := h.ID
+		vfFlavour = h.ID / 2
 		scfg := vfConfigFromFile(t, cfgDir, true, variant)
 		s, err := NewHopServerExt(nil, scfg, ks)
 		if err != nil {
@@ -339,6 +357,14 @@ func TestVerifGrantsReplay(t *testing.T) {
 				}
 				r["admitted"] = vs.ok
 				sessions = append(sessions, vs)
+			case "pfopen":
+				// the control tube of a forwarding request is opened now, the request itself is sent by a later step
+				// (a correct server judges a request when it is made, not when its tube was opened)
+				vs := sessions[op.Sid-1]
+				if vs.ok {
+					vs.pf, _ = vs.cmux.CreateReliableTube(common.PFControlTube)
+					time.Sleep(40 * time.Millisecond) // let the session loop accept it before the clock moves on
+				}
 			case "request":
 				vs := sessions[op.Sid-1]
 				started, detail := false, ""
@@ -383,7 +409,11 @@ func TestVerifGrantsReplay(t *testing.T) {
 					stdin.Close()
 					stdout.Close()
 				case "localpf", "remotepf":
-					ct, err := vs.cmux.CreateReliableTube(common.PFControlTube)
+					ct, err := vs.pf, error(nil)
+					vs.pf = nil
+					if ct == nil {
+						ct, err = vs.cmux.CreateReliableTube(common.PFControlTube)
+					}
 					if err != nil {
 						detail = "tube creation failed"
 						break
